@@ -518,4 +518,206 @@ theorem parseInline_escaped {cfg : Cfg} (hc : ChainOK cfg.chain) (hmax : 0 < cfg
   have : (IState.init (w ++ escapeAllPunct m ++ w') mapping) = st0 := rfl
   rw [this, h]
 
+/-! ## exact steps (for the templated documents of the context-agreement part) -/
+
+/-- `tokenize`: one more iteration -/
+theorem tokLoop_step {cfg : Cfg} {f : Nat} {st st1 : IState} (hlt : st.pos < st.posMax)
+    (h1 : tokStep cfg (fun s => skipToken cfg f s) (fun s => tokLoop cfg f s.posMax s) f st = .ok st1)
+    (hpm : st1.posMax = st.posMax) :
+    tokLoop cfg (f + 1) st.posMax st = tokLoop cfg f st1.posMax st1 := by
+  rw [hpm]
+  conv => lhs; unfold tokLoop
+  rw [if_pos hlt]
+  simp only [h1]
+
+theorem tokLoop_done {cfg : Cfg} {f : Nat} {st : IState} (h : ¬ st.pos < st.posMax) :
+    tokLoop cfg f st.posMax st = .ok st := by
+  unfold tokLoop
+  rw [if_neg h]
+
+/-- the text scanner on a plain run when the last child is not a `Text`: a fresh `Text` node -/
+theorem step_text_fresh {cfg : Cfg} (hc : ChainOK cfg.chain) (skip tok : IState → Except Panic IState)
+    (fuel : Nat) (st : IState) (P a E B : List Char) (hane : a ≠ [])
+    (ha : ∀ x ∈ a, isAsciiPunct x = false ∧ x ≠ '\n') (hE : ∀ x ∈ E.head?, nonStop x = false)
+    (hsrc : st.src = P ++ (a ++ E) ++ B) (hpos : st.pos = byteLen P)
+    (hmax : st.posMax = byteLen P + byteLen (a ++ E))
+    (hwf : WFMap st.srcmap) (hlv : st.level < cfg.maxNesting)
+    (hlast : ∀ init l, st.children = init ++ [l] → l.isText = false) :
+    ∃ st' rg, tokStep cfg skip tok fuel st = .ok st' ∧ st'.src = st.src ∧ st'.srcmap = st.srcmap ∧
+      st'.posMax = st.posMax ∧ st'.level = st.level ∧ st'.pos = byteLen (P ++ a) ∧
+      st'.children = st.children ++ [Node.newText a (some rg)] := by
+  have hw := window_of_src hsrc hpos hmax
+  obtain ⟨c, a', rfl⟩ := List.exists_cons_of_ne_nil hane
+  have hrun : splitRun nonStop ((c :: a') ++ E) = (c :: a', E) :=
+    Entity.splitRun_append nonStop (c :: a') E
+      (fun x hx => Entity.nonStop_of_notPunct x (ha x hx).1 (ha x hx).2) hE
+  have hrun' : splitRun (fun c => !Entity.textStop.contains c) ((c :: a') ++ E) = (c :: a', E) := hrun
+  have hlen : byteLen (c :: a') ≠ 0 := by
+    have := Char.utf8Size_pos c; simp only [byteLen]; omega
+  have hsl : slice st.src st.pos (st.pos + byteLen (c :: a')) = .ok (c :: a') :=
+    (slice_ok_iff _ _ _ _).mpr ⟨P, E ++ B, by rw [hsrc]; simp, hpos.symm, rfl⟩
+  obtain ⟨x, y, hmap, -, -⟩ := getMap_ok (st := st) hwf
+    (show st.pos ≤ st.pos + byteLen (c :: a') by omega)
+  have hmap' : liftOps (getMap st.srcmap st.pos (st.pos + byteLen (c :: a'))) = .ok (x, y) := hmap
+  have hsl' : liftOps (slice st.src st.pos (st.pos + byteLen (c :: a'))) = .ok (c :: a') := by
+    rw [hsl]; rfl
+  have hpush : trailingTextPush st.src st.srcmap st.children st.pos (st.pos + byteLen (c :: a')) =
+      .ok (st.children ++ [Node.newText (c :: a') (some (x, y))]) := by
+    unfold trailingTextPush
+    simp only [hsl', hmap']
+    rcases popLast_spec st.children with ⟨hp, _⟩ | ⟨init, last, hp, hcs⟩
+    · rw [hp]
+    · rw [hp]; simp only [hlast init last hcs]; rfl
+  have hrule : runRule cfg skip tok fuel .text st false =
+      .ok (some (byteLen (c :: a')),
+        { st with children := st.children ++ [Node.newText (c :: a') (some (x, y))] }) := by
+    simp only [runRule, ruleText, hw, hrun', if_neg hlen, IState.pushText, hpush, liftR]
+    rfl
+  have hw' : st.window = .ok (c :: (a' ++ E)) := hw
+  have hfirst := firstRule_only (fun id s => runRule cfg skip tok fuel id s false) cfg.chain st
+    .text _ _ hc.text hrule
+    (fun r hr hne => runRule_quiet cfg skip tok fuel r st _ _ hw'
+      (trigger_plain hc (ha c (by simp)).1 (ha c (by simp)).2 r hr hne))
+  refine ⟨{ st with children := st.children ++ [Node.newText (c :: a') (some (x, y))],
+                    pos := st.pos + byteLen (c :: a') }, (x, y), ?_, rfl, rfl, rfl, rfl, ?_, rfl⟩
+  · unfold tokStep
+    simp only [if_pos hlv, hfirst]
+  · simp only [hpos, byteLen_append]
+
+/-- a rule `r0` that answers at the first character `c0` of `R` with the `TextSpecial`
+    `{ content: X, markup: R, info }` of length `|R|`, all other rules of the chain being quiet at `c0` -/
+theorem step_special {cfg : Cfg} (skip tok : IState → Except Panic IState) (fuel : Nat) (st : IState)
+    (P R E B X info : List Char) (r0 : RuleId) (c0 : Char) (R' : List Char) (hR : R = c0 :: R')
+    (hmem : r0 ∈ cfg.chain) (hq : ∀ r ∈ cfg.chain, r ≠ r0 → trigger r c0 = false)
+    (hfire : ∀ rg, st.getMap st.pos (st.pos + byteLen R) = .ok rg →
+      runRule cfg skip tok fuel r0 st false =
+        .ok (some (byteLen R), st.push (Node.leaf (.special X R info) (some rg))))
+    (hsrc : st.src = P ++ (R ++ E) ++ B) (hpos : st.pos = byteLen P)
+    (hmax : st.posMax = byteLen P + byteLen (R ++ E))
+    (hwf : WFMap st.srcmap) (hlv : st.level < cfg.maxNesting) :
+    ∃ st' rg, tokStep cfg skip tok fuel st = .ok st' ∧ st'.src = st.src ∧ st'.srcmap = st.srcmap ∧
+      st'.posMax = st.posMax ∧ st'.level = st.level ∧ st'.pos = byteLen (P ++ R) ∧
+      st'.children = st.children ++ [Node.leaf (.special X R info) (some rg)] := by
+  have hw := window_of_src hsrc hpos hmax
+  have hw' : st.window = .ok (c0 :: (R' ++ E)) := by rw [hw, hR]; rfl
+  obtain ⟨x, y, hmap, -, -⟩ := getMap_ok (st := st) hwf (show st.pos ≤ st.pos + byteLen R by omega)
+  have hrule := hfire (x, y) hmap
+  have hfirst := firstRule_only (fun id s => runRule cfg skip tok fuel id s false) cfg.chain st
+    r0 _ _ hmem hrule
+    (fun r hr hne => runRule_quiet cfg skip tok fuel r st _ _ hw' (hq r hr hne))
+  refine ⟨{ st with children := st.children ++ [Node.leaf (.special X R info) (some (x, y))],
+                    pos := st.pos + byteLen R }, (x, y), ?_, rfl, rfl, rfl, rfl, ?_, rfl⟩
+  · unfold tokStep
+    simp only [if_pos hlv, hfirst]
+    rfl
+  · simp only [hpos, byteLen_append]
+
+/-- the escape rule on `\c …` -/
+theorem fire_escape (cfg : Cfg) (skip tok : IState → Except Panic IState) (fuel : Nat) (st : IState)
+    (c : Char) (E : List Char) (hc : c ∈ Entity.escapable) (hw : st.window = .ok ('\\' :: c :: E))
+    (rg : Nat × Nat) (hmap : st.getMap st.pos (st.pos + byteLen ['\\', c]) = .ok rg) :
+    runRule cfg skip tok fuel .escape st false =
+      .ok (some (byteLen ['\\', c]), st.push (Node.leaf (.special [c] ['\\', c] infoEscape) (some rg))) := by
+  have hcore := Entity.escapeCore_escapable c E hc
+  simp only [runRule, ruleEscape, hw, hcore, hmap, liftR]
+  rfl
+
+/-- the entity rule when the window reaches to the end of the source (`window = suffix`) -/
+theorem fire_entity (cfg : Cfg) (skip tok : IState → Except Panic IState) (fuel : Nat) (st : IState)
+    (P R E X : List Char) (R' : List Char) (hR : R = '&' :: R')
+    (hcore : Entity.entityCore cfg.entity (R ++ E) (R ++ E) = .ok (some ⟨R.length, X, R⟩))
+    (hsrc : st.src = P ++ (R ++ E)) (hpos : st.pos = byteLen P)
+    (hmax : st.posMax = byteLen P + byteLen (R ++ E))
+    (rg : Nat × Nat) (hmap : st.getMap st.pos (st.pos + byteLen R) = .ok rg) :
+    runRule cfg skip tok fuel .entity st false =
+      .ok (some (byteLen R), st.push (Node.leaf (.special X R infoEntity) (some rg))) := by
+  have hw : st.window = .ok ('&' :: (R' ++ E)) := by
+    have := window_of_src (B := []) (by rw [hsrc]; simp) hpos hmax
+    rw [this, hR]; rfl
+  have hsuf : liftOps (slice st.src st.pos (byteLen st.src)) = .ok (R ++ E) := by
+    have : slice st.src st.pos (byteLen st.src) = .ok (R ++ E) :=
+      (slice_ok_iff _ _ _ _).mpr ⟨P, [], by rw [hsrc]; simp, hpos.symm, by rw [hsrc, hpos]; simp only [byteLen_append]⟩
+    rw [this]; rfl
+  have hcore' : Entity.entityCore cfg.entity ('&' :: (R' ++ E)) (R ++ E) = .ok (some ⟨R.length, X, R⟩) := by
+    rw [← hcore, hR]; rfl
+  simp only [runRule, ruleEntity, hw, hsuf, hcore', liftR]
+  simp [hmap]
+
+/-- **`md.inline.parse("a" ++ R ++ "b")`** for a reference / escape `R` handled by rule `r0`:
+    exactly `[Text "a", TextSpecial { content: X, markup: R, info }, Text "b"]` -/
+theorem parseInline_aRb {cfg : Cfg} (hc : ChainOK cfg.chain) (hmax : 0 < cfg.maxNesting)
+    (R X info : List Char) (r0 : RuleId) (c0 : Char) (R' : List Char) (hR : R = c0 :: R')
+    (hstop : nonStop c0 = false) (hmem : r0 ∈ cfg.chain)
+    (hq : ∀ r ∈ cfg.chain, r ≠ r0 → trigger r c0 = false)
+    (hfire : ∀ (skip tok : IState → Except Panic IState) (fuel : Nat) (st : IState),
+      st.src = ['a'] ++ (R ++ ['b']) → st.pos = byteLen ['a'] →
+      st.posMax = byteLen ['a'] + byteLen (R ++ ['b']) →
+      ∀ rg, st.getMap st.pos (st.pos + byteLen R) = .ok rg →
+      runRule cfg skip tok fuel r0 st false =
+        .ok (some (byteLen R), st.push (Node.leaf (.special X R info) (some rg)))) :
+    ∃ r1 r2 r3, parseInline cfg ('a' :: (R ++ ['b'])) [(0, 0)] =
+      .ok [Node.newText ['a'] (some r1), Node.leaf (.special X R info) (some r2),
+           Node.newText ['b'] (some r3)] := by
+  have htrim : trimSrc ('a' :: (R ++ ['b'])) = (0, byteLen ('a' :: (R ++ ['b']))) := by
+    have := trimSrc_mid [] ('a' :: (R ++ ['b'])) [] (by simp) (by simp) (by simp)
+      (by intro c hc; simp at hc; subst hc; decide)
+      (by intro c hc
+          rw [show 'a' :: (R ++ ['b']) = ('a' :: R) ++ ['b'] by simp, List.getLast?_append] at hc
+          simp at hc; subst hc; decide)
+    simpa [byteLen] using this
+  obtain ⟨f, hf⟩ : ∃ f, topFuel cfg ('a' :: (R ++ ['b'])) = f + 3 := by
+    refine ⟨topFuel cfg ('a' :: (R ++ ['b'])) - 3, ?_⟩
+    unfold topFuel
+    have : 1 * 3 ≤ (byteLen ('a' :: (R ++ ['b'])) + 2) * (cfg.maxNesting + 2) :=
+      Nat.mul_le_mul (by omega) (by omega)
+    omega
+  let st0 : IState := IState.init ('a' :: (R ++ ['b'])) [(0, 0)]
+  have hb : ∀ x ∈ ['b'], isAsciiPunct x = false ∧ x ≠ '\n' := by
+    intro x hx; simp at hx; subst hx; exact ⟨by decide, by decide⟩
+  have ha : ∀ x ∈ ['a'], isAsciiPunct x = false ∧ x ≠ '\n' := by
+    intro x hx; simp at hx; subst hx; exact ⟨by decide, by decide⟩
+  -- step 1: "a"
+  obtain ⟨st1, r1, h1, s1, m1, p1, l1, q1, c1⟩ := step_text_fresh hc (fun s => skipToken cfg (f + 2) s)
+    (fun s => tokLoop cfg (f + 2) s.posMax s) (f + 2) st0 [] ['a'] (R ++ ['b']) [] (by simp) ha
+    (by intro x hx; rw [hR] at hx; simp at hx; subst hx; exact hstop)
+    (by show 'a' :: (R ++ ['b']) = _; simp) (by show (trimSrc _).1 = _; rw [htrim]; rfl)
+    (by show (trimSrc _).2 = _; rw [htrim]; simp [byteLen]) wf_single (by show 0 < _; exact hmax)
+    (by intro init l h; exact absurd h (by simp [st0, IState.init]))
+  -- step 2: R
+  obtain ⟨st2, r2, h2, s2, m2, p2, l2, q2, c2⟩ := step_special (fun s => skipToken cfg (f + 1) s)
+    (fun s => tokLoop cfg (f + 1) s.posMax s) (f + 1) st1 ['a'] R ['b'] [] X info r0 c0 R' hR hmem hq
+    (fun rg hrg => hfire _ _ _ st1 (by rw [s1]; rfl) (by rw [q1]; rfl)
+      (by rw [p1]; show (trimSrc _).2 = _; rw [htrim]; simp [byteLen]) rg hrg)
+    (by rw [s1]; show 'a' :: (R ++ ['b']) = _; simp) (by rw [q1]; rfl)
+    (by rw [p1]; show (trimSrc _).2 = _; rw [htrim]; simp [byteLen]) (by rw [m1]; exact wf_single)
+    (by rw [l1]; show 0 < _; exact hmax)
+  -- step 3: "b"
+  obtain ⟨st3, r3, h3, s3, m3, p3, l3, q3, c3⟩ := step_text_fresh hc (fun s => skipToken cfg f s)
+    (fun s => tokLoop cfg f s.posMax s) f st2 (['a'] ++ R) ['b'] [] [] (by simp) hb (by simp)
+    (by rw [s2, s1]; show 'a' :: (R ++ ['b']) = _; simp) q2
+    (by rw [p2, p1]; show (trimSrc _).2 = _; rw [htrim]; simp [byteLen, byteLen_append]; omega)
+    (by rw [m2, m1]; exact wf_single) (by rw [l2, l1]; show 0 < _; exact hmax)
+    (by intro init l h
+        rw [c2] at h
+        have := List.append_inj' h rfl
+        simp only [List.cons.injEq, and_true] at this
+        rw [← this.2]; rfl)
+  have hlen : byteLen ('a' :: (R ++ ['b'])) = byteLen ['a'] + byteLen R + byteLen ['b'] := by
+    simp [byteLen, byteLen_append]; omega
+  have hRpos : 0 < byteLen R := byteLen_pos_of_ne_nil (by rw [hR]; simp)
+  have e0 : st0.posMax = byteLen ('a' :: (R ++ ['b'])) := by show (trimSrc _).2 = _; rw [htrim]
+  have e0' : st0.pos = 0 := by show (trimSrc _).1 = _; rw [htrim]
+  have hbpos : 0 < byteLen ['b'] := byteLen_pos_of_ne_nil (by simp)
+  have hapos : 0 < byteLen ['a'] := byteLen_pos_of_ne_nil (by simp)
+  refine ⟨r1, r2, r3, ?_⟩
+  unfold parseInline tokenize
+  show (match tokLoop cfg (topFuel cfg ('a' :: (R ++ ['b']))) st0.posMax st0 with
+    | .error e => (Except.error e : Except Panic (List Node)) | .ok st => .ok st.children) = _
+  rw [hf, tokLoop_step (by rw [e0', e0, hlen]; omega) h1 p1,
+    tokLoop_step (by rw [q1, p1, e0, hlen]; simp only [List.nil_append]; omega) h2 p2,
+    tokLoop_step (by rw [q2, p2, p1, e0, hlen, byteLen_append]; omega) h3 p3,
+    tokLoop_done (by rw [q3, p3, p2, p1, e0, hlen]; simp only [byteLen_append]; omega)]
+  simp only [c3, c2, c1]
+  rfl
+
 end MdIt.Inline
